@@ -31,7 +31,12 @@ fn write(m: &MDL) -> Result<Vec<u8>, Failure> {
 fn prop_roundtrip_spec(spec: &ModelSpec, ctx: &Ctx) -> PResult {
     let built = encode(spec);
     let m1 = parse(&built.bytes, "the generated model")?;
-    compare_model(&m1, &built.expected, spec, None).map_err(|f| Failure { slug: format!("first-parse/{}", f.slug), msg: f.msg })?;
+    // When the offset copies the reader does not consult disagree with the ones it does, the statement does not say
+    // which copy is authoritative: only Physis' own write -> parse consistency is asserted for such models.
+    let skewed = spec.skew_unused_copies != 0;
+    if !skewed {
+        compare_model(&m1, &built.expected, spec, None).map_err(|f| Failure { slug: format!("first-parse/{}", f.slug), msg: f.msg })?;
+    }
     let written = write(&m1)?;
     let m2 = match guard("MDL::from_existing", || MDL::from_existing(&written))? {
         Some(m) => m,
@@ -48,12 +53,27 @@ fn prop_roundtrip_spec(spec: &ModelSpec, ctx: &Ctx) -> PResult {
         let from = pos.saturating_sub(160);
         return fail("model-data-differs", format!("re-parsed model_data differs from the original near: original …{}… vs re-parsed …{}…", &a[from..(pos + 80).min(a.len())], &b[from..(pos + 80).min(b.len())]));
     }
-    compare_model(&m2, &built.expected, spec, Some(ctx)).map_err(|f| Failure { slug: format!("reparse/{}", f.slug), msg: f.msg })?;
+    if skewed {
+        let (a, b) = (format!("{:?}", m1.lods), format!("{:?}", m2.lods));
+        if a != b {
+            let pos = a.bytes().zip(b.bytes()).position(|(x, y)| x != y).unwrap_or(0);
+            let from = pos.saturating_sub(120);
+            return fail("reparse/geometry-differs-from-first-parse", format!("a model whose unused offset copies disagree with the used ones is written and re-parsed to different geometry near: first parse …{}… vs re-parse …{}…", &a[from..(pos + 80).min(a.len())], &b[from..(pos + 80).min(b.len())]));
+        }
+        ensure_eq!(&m1.material_names, &m2.material_names, "reparse/material-names", "material names");
+        ensure_eq!(&m1.affected_bone_names, &m2.affected_bone_names, "reparse/bone-names", "bone names");
+        ctx.class("roundtrip:unused-offset-copies-disagree");
+    } else {
+        compare_model(&m2, &built.expected, spec, Some(ctx)).map_err(|f| Failure { slug: format!("reparse/{}", f.slug), msg: f.msg })?;
+    }
     Ok(())
 }
 
 fn prop_roundtrip(c: &c06::Case, ctx: &Ctx) -> PResult {
-    let spec = realise(c, &WRITE_PAIRS, true);
+    let mut spec = realise(c, &WRITE_PAIRS, true);
+    if c.seed % 4 == 0 {
+        spec.skew_unused_copies = 1 + ((c.seed >> 8) % 3) as u8;
+    }
     prop_roundtrip_spec(&spec, ctx)?;
     let meshes: usize = spec.lods.iter().map(|l| l.len()).sum();
     ctx.classf(format!("roundtrip:lods:{}", spec.lods.len()));
